@@ -1,6 +1,6 @@
 #!/venv/bin/python
 """Sensitivity harness: apply one named edit to a scratch copy of opendsm/, run a property's check against it,
-expect exit 1, delete the copy.   usage: tools/mutants.py [-t quick|thorough] [name ...] | --list | --all
+expect exit 1, delete the copy.   usage: tools/mutants.py [-t quick|thorough] [name ...] | --list | --all | --missing
 Mutants live in tools/mutants/<name>.json: {"property": "C18", "file": "opendsm/...", "old": "...", "new": "...",
 "why": "..."} or {"property":..., "patch": "path/to/patch.diff"} (git-apply format, e.g. seeded/<id>/patch.diff)."""
 import glob
@@ -79,7 +79,17 @@ def main(argv):
             m = load(n)
             print(n, m["property"], m.get("why", ""))
         return 0
-    if not argv or argv[0] != "--all":
+    if argv and argv[0] == "--missing":
+        # only the changes without a stored 'caught' result for this tier
+        try:
+            with open(os.path.join(HERE, "tools", "sensitivity_results.json")) as fh:
+                have = json.load(fh)
+        except Exception:
+            have = {}
+        done = {v["mutant"] for v in have.values() if v.get("tier") == tier and v.get("status") == "caught"}
+        names = [n for n in names if n not in done]
+        print("running %d changes without a stored caught result" % len(names))
+    elif not argv or argv[0] != "--all":
         names = argv
     bad = 0
     resfile = os.path.join(HERE, "tools", "sensitivity_results.json")
